@@ -587,8 +587,7 @@ Definition has_post (d : desc) : bool :=
 Lemma post_nopost d w : has_post d = false -> post_setattr d w = NoPost.
 Proof.
   destruct d; cbn; try discriminate; try reflexivity.
-  induction ds as [|a ds IH]; cbn; [reflexivity|]. intros H. apply orb_false_iff in H as [H1 H2].
-  rewrite H1. now apply IH.
+  intros ->. reflexivity.
 Qed.
 
 Lemma post_raise_not_traiterror d w : post_setattr d w <> PostRaise ETraitError.
@@ -596,9 +595,7 @@ Proof.
   destruct d; cbn; try discriminate.
   - destruct (if hashable w then dict_get m w else None); discriminate.
   - destruct (match str_of w with Some s => str_get m s | None => None end); discriminate.
-  - induction ds as [|a ds IH]; cbn; [discriminate|].
-    destruct (is_mapped a); [|exact IH]. destruct (mapped_of a w); [discriminate|].
-    destruct (hashable w); discriminate.
+  - destruct (existsb is_mapped ds); discriminate.
 Qed.
 
 Lemma setattr_traiterror_no_effect E c s n v s' :
@@ -804,13 +801,6 @@ Qed.
 
 Lemma ctor_failure_no_effect E c s kw s' e : step E c s (Ctor, kw) = (s', Raise e) -> s' = s.
 Proof. cbn. destruct (assign_all E c [] kw) as [s1 [|e1]]; intros H; inversion H; reflexivity. Qed.
-
-(* F19: Either(Map({'a': 1}), Int) <- 5 on a fresh instance *)
-Lemma exception_no_effect_refuted_lemma :
-  let E := mkEnv [(3, 3); (6, 6)] 110 [] [] in
-  let c := [(0, (DCompound [DMap [(PStr [97], PInt 1)]; DInt], PNone))] in
-  exists s' e, setattr E c [] 0 (PInt 5) = (s', Raise e) /\ e <> ETraitError /\ s' <> [].
-Proof. eexists. eexists. vm_compute. repeat split; discriminate. Qed.
 
 (* F22: the Undefined sentinel is stored without validation *)
 Lemma undefined_bypass_lemma :
@@ -1623,7 +1613,8 @@ Lemma dyn_enum_readable_member_lemma c s n src x :
                 end.
 Proof.
   unfold dyn_enum_readable. destruct (read c s src) as [[]|]; try discriminate.
-  destruct (read c s n) as [v0|]; [|discriminate]. intros H; inversion H; subst. exists l. split; [reflexivity|].
+  set (v0 := match get s n with Some w => w | None => PUndefined end).
+  intros H; inversion H; subst. exists l. split; [reflexivity|].
   destruct l as [|y l]; [reflexivity|]. intros Hy. destruct (py_in v0 (y :: l)) eqn:Hin; [exact Hin|].
   unfold py_in. cbn [existsb]. now rewrite Hy.
 Qed.
